@@ -1,4 +1,16 @@
-"""C11: the compact ordered map is an insertion-ordered map; one slot per state feature."""
+"""C11: the compact ordered map is an insertion-ordered map; every state feature owns exactly one slot.
+
+Two correspondence streams (harness/src/bin/c11.rs):
+  cmap   the container: op sequences on CompactOrderedHashMap  vs  Model/CompactMap.v (M) and the
+         insertion-ordered association list (S)
+  state  the state model on top of it: configured features + traversal/access model features + query overrides
+         through the real StateModel::try_from / collect_features / StateModel::extend and through
+         SearchApp::build_search_instance, then get/set/add sequences on the resulting state vector
+         vs  Model/StateModel.v in binary64 (M, bit-exact) and Model/StateModelSpec.v (S: names, slots, initial
+         state, error class computed from the declaration lists; every operation judged in exact rationals on
+         the implementation's own output: own slot only, value within the C09 round-trip bound)."""
+import glob
+import json
 import os
 from lib import vf
 
@@ -6,24 +18,92 @@ RULE = ("op sequences (constructor empty/new/from_iter + up to 60 inserts over <
         "(len, iter, keys, to_vec, get, get_index, get_pair) compared after every op; non-trivial = the key set "
         "reaches >=5 keys (crosses the small-size specialisations) or some key is overwritten; distinct by op sequence")
 
+RULE_STATE = (
+    "174 deterministic boundary cases first (a query overriding a model-contributed feature; overriding initial "
+    "values of the 4 features of an electric-vehicle model; n = 0..7 configured + k = 0..3 model features with and "
+    "without override / with both models declaring the last one; an override at every position of 1..8 features; "
+    "configured features re-declared by a model and overridden; one name from both models / twice from one model; "
+    "every refusal: unknown name, configured-only name, other type, custom type named like a built-in, other custom "
+    "unit, unparsable state_features, a model replacing a configured feature of another kind; accessor errors and "
+    "codec edge values), then random cases: 0-9 configured features of every kind / unit / format over 12 names, "
+    "0-4 traversal-model and 0-2 access-model features (1/3 re-declare an existing name, 9/10 of those with the same "
+    "kind), query state_features absent / unparsable / 0-3 overrides (3/4 valid overrides of model features, at most "
+    "one invalid entry per query), 0-8 operations (get/set/add/round-trip/get-add-get in a random unit of the "
+    "feature's family, the four custom codecs, 1/10 deliberately ill-typed, 1/12 on an undeclared name); observables: "
+    "result class, len, iteration order, slot of each of 13 probe names (observed through get_delta), initial state, "
+    "and after every operation its result and the whole state vector as binary64 bit patterns; the model built by "
+    "SearchApp::build_search_instance must show the same observables as collect_features + extend; non-trivial = "
+    "the final model has >= 5 features or some name is defined more than once; distinct by case")
+
 
 def classify(case, i, m, s):
     return None
 
 
+def replay_stream(chk):
+    """a replay file names its stream"""
+    if not chk.replay:
+        return None
+    try:
+        v = json.load(open(chk.replay))
+    except Exception:  # noqa
+        return None
+    st = v.get("stream") or ""
+    if st.startswith("corpus:"):
+        return "state"
+    if st in ("cmap", "state"):
+        return st
+    return "state" if "cfg" in v.get("case", {}) else "cmap"
+
+
 def run(chk):
     chk.coverage["trusted_base"] = [
-        "Coq 8.16.1 kernel + vm_compute", "hand-written model coq/Model/CompactMap.v (tied by this correspondence run)",
+        "Coq 8.16.1 kernel + vm_compute",
+        "hand-written models coq/Model/CompactMap.v and coq/Model/StateModel.v (tied by these correspondence runs), "
+        "specification coq/Model/StateModelSpec.v and the judgement of operations in coq/Model/StateModelRun.v",
+        "C09's unit table coq/Gen/UnitTables.v (regenerated from the Rust unit files by the translator on every run)",
         "std::collections::HashMap specified as a finite map with unspecified iteration order",
-        "Rust harness harness/src/bin/c11.rs and this driver"]
-    chk.assumptions = ["keys have a decidable equality (Eq + Hash agree)", "constructor `new` receives duplicate-free keys (a set of features)"]
-    chk.proofs(extra_targets=["Model/CompactMapRun.vo"])
+        "serde (a feature arrives parsed; the harness builds the JSON of configuration and query with serde itself)",
+        "Rust harness harness/src/bin/c11.rs (stub traversal/access models returning the chosen state_features) and this driver"]
+    chk.assumptions = [
+        "keys have a decidable equality (Eq + Hash agree)",
+        "constructor `new` receives duplicate-free keys (the configured features are a set: a TOML table / JSON object)",
+        "a query's state_features is a JSON object (distinct names); when it holds invalid entries of two different kinds "
+        "(unknown name and other type) the class of the reported error depends on HashMap order - both are errors",
+        "custom integer features below 2^63; arithmetic theorems are about exact rationals, binary64 is tied by the bit-exact run",
+        "a state vector handed to get/set/add has the length of the model it belongs to (a shorter one is a RuntimeError / "
+        "InvalidStateVariableIndex in the code and in the model)"]
+    # the unit table the state model's conversions go through
+    tres = vf.run_translators(which=["units"]).get("units", {"ok": False, "msg": "translator module tr_units.py missing"})
+    tres.pop("parsed", None)
+    chk.coverage["translator_units"] = {k: tres.get(k) for k in ("ok", "msg", "digest", "changed")}
+    if not tres.get("ok"):
+        chk.violation("broken-correspondence", "translator", {"translator": "tr_units", "error": tres.get("msg")},
+                      tres.get("msg"), "the unit sources have the shape the translator knows",
+                      detail="coq/Gen/UnitTables.v could not be regenerated (see property C09)", found=False, key="translator")
+    chk.proofs(extra_targets=["Model/CompactMapRun.vo", "Model/StateModelRun.vo"])
     binp = vf.build_harness("c11")
-    n = 400 if chk.tier == "quick" else 6000
-    r = vf.run_stream(binp, "cmap", n, chk.seed, os.path.join(chk.outdir, "cmap"), replay=chk.replay)
-    chk.add_stream(r, RULE)
-    ncorr, nprop = vf.compare(chk, r, classify=classify, binpath=binp)
+    only = replay_stream(chk)
+    quick = chk.tier == "quick"
+    if only in (None, "cmap"):
+        n = 400 if quick else 6000
+        r = vf.run_stream(binp, "cmap", n, chk.seed, os.path.join(chk.outdir, "cmap"), replay=chk.replay)
+        chk.add_stream(r, RULE)
+        vf.compare(chk, r, classify=classify, binpath=binp)
+    if only in (None, "state"):
+        if not chk.replay:
+            # witnesses of the seeded defects and of the mutations tried, replayed first
+            for f in sorted(glob.glob(os.path.join(vf.ROOT, "corpus", "C11", "*.json"))):
+                name = os.path.basename(f)[:-5]
+                rc = vf.run_stream(binp, "state", 1, chk.seed, os.path.join(chk.outdir, "corpus_" + name), shards=1, replay=f)
+                rc.name = "state"
+                chk.coverage["streams"].setdefault("corpus", {"cases": 0, "rule": "corpus/C11/*.json replayed (full payloads)"})["cases"] += 1
+                vf.compare(chk, rc, classify=classify, binpath=binp, stream_label="corpus:" + name)
+        n = 900 if quick else 12000
+        r = vf.run_stream(binp, "state", n, chk.seed, os.path.join(chk.outdir, "state"), replay=chk.replay)
+        chk.add_stream(r, RULE_STATE)
+        vf.compare(chk, r, classify=classify, binpath=binp)
     if chk.broken_obligation:
-        # a proof obligation no longer checks: the stream above was the search for a failing input
+        # a proof obligation no longer checks: the streams above were the search for a failing input
         chk.violation("broken-obligation", "proofs", {"obligations": chk.broken_obligation}, "does not check", "Qed",
                       found=False, key="obligation")
